@@ -140,6 +140,11 @@ ADD_OPS_PREFIX = ("add_", "madd_")
 def arg_pool(op, sig, k):
     """values for argument k of op"""
     c = sig[k]
+    # calls that would legitimately rewrite data files to astronomically many samples are not made
+    if op == "alter_raw" and k == 2:
+        return [0, 1, 2, 3, 1 << 32]
+    if op in ("alter_frameoffset64", "alter_entry") and c == "i" and k == len(sig) - 1:
+        return [0]
     if c != "s":
         return POOL[c]
     if op in ("add_spec", "alter_spec") and k == 0 or op in ("madd_spec", "malter_spec") and k == 0:
